@@ -231,6 +231,7 @@ class OalFaultEngine(Engine):
     def describe(self, prop):
         return {
             'level': 'fault_enumeration',
+            'evaluations': 'steps',     # an evaluation is one fault site, not one block
             'rule': ('one run = one OAL body of the committed corpus (%d bodies: repository test samples and hand-written '
                      'bodies covering every statement production); fault sites: truncation after every character, every '
                      'whitespace character flipped among space/tab/newline/CR, per token delete / duplicate / swap / '
